@@ -369,7 +369,29 @@ class RT:
         from unified_planning.exceptions import UPTypeError, UPConflictingEffectsException
 
         try:
-            return True, ProtobufReader().convert(msg, *rargs)
+            first = ProtobufReader().convert(msg, *rargs)
+            # reading is a query: the same message converted a second time (every third read) must give an equal object
+            self._reads = getattr(self, "_reads", 0) + 1
+            if self._reads % 3 == 1:
+                self.res.count("second_reads_of_one_message")
+                try:
+                    second = ProtobufReader().convert(msg, *rargs)
+                except Exception as e2:  # noqa
+                    self.viol(
+                        f"second-read-of-one-message-raises:{exc_signature(e2)}",
+                        f"{role}: the first conversion of the message succeeded, a second conversion of the SAME message raised {type(e2).__name__}: {str(e2)[:200]} (the reader changed its input)",
+                        role=role,
+                    )
+                    return True, first
+                from unified_planning.model import AbstractProblem
+                from unified_planning.plans import Plan
+
+                # equality is only meaningful for objects with a structural ==; results (they carry closures) are compared
+                # component-wise by the callers
+                same = _safe_eq(first, second) if isinstance(first, (AbstractProblem, Plan)) and _safe_eq(first, first) else True
+                if not same:
+                    self.viol("second-read-of-one-message-differs", f"{role}: two conversions of the same message give different objects", role=role)
+            return True, first
         except Exception as e:  # noqa: any exception: the written message cannot be read back
             if isinstance(e, (UPTypeError, UPConflictingEffectsException)) and original_problem is not None:
                 # The reader can only rebuild actions through the public, checking Action API.  If the *original*
